@@ -362,3 +362,34 @@ def proof_stage(chk, module, theorems, extra_targets=(), audit_imports=()):
             res["discharged"] += 1
     res["ok"] = (not res["failed"]) and not hits
     return res
+
+
+def verdict(chk, cov, pr, prop_fail, tie_breaks, pid, tie_name, assumptions, level="proof"):
+    """Common violation protocol: property failures found on the implementation are violations with
+    the failing input as replay (unless listed in known_findings.json, matched on `key`); a broken
+    proof / translator / tie without a failing input is reported with no-failing-input-found."""
+    groups = {}
+    for f in prop_fail:
+        k = json.dumps(f.get("key"), sort_keys=True) if f.get("key") is not None else f.get("clause", "")
+        groups.setdefault(k, []).append(f)
+    any_new = False
+    for k, fs in groups.items():
+        body = {"theorem_or_tie": "%s evaluated on the implementation" % pid, "failures": fs[:5], "n_failures": len(fs),
+                "input": fs[0].get("case") or fs[0].get("op"), "key": fs[0].get("key"),
+                "oracle": {"name": fs[0].get("clause"), "verdict": "fails"}}
+        tag = "impl-" + hashlib.sha256(k.encode()).hexdigest()[:10]
+        if chk.violation("violation", body, found_input=True, tag=tag):
+            any_new = True
+    found = bool(prop_fail)
+    if cov.get("steps", {}).get("xlate") not in (None, "ok"):
+        chk.violation("tie-broken", {"theorem_or_tie": "translator/fact extractor tools/xlate", "detail": cov["steps"].get("xlate")},
+                      found_input=found, tag="xlate")
+    elif not pr["ok"]:
+        chk.violation("proof-broken", {"theorem_or_tie": pr["failed"] or pr["forbidden_constructs"], "build_output": pr["build_output"]},
+                      found_input=found, tag="proof")
+    if tie_breaks and not any_new:
+        # a tie that broke only on inputs already explained by known findings is not a new alarm
+        unexplained = tie_breaks if not chk.known_hits else []
+        if unexplained:
+            chk.violation("tie-broken", {"theorem_or_tie": tie_name, "disagreements": tie_breaks[:20]}, found_input=False, tag="tie")
+    return chk.finish(level, cov, assumptions)
